@@ -35,11 +35,11 @@ def _none0(x):
 def ext_cooler(case, ctx):
     import cooler
     import h5py
-    path = ctx.path()
-    gen.make_cooler(path, case["table"], case["px"], case["mode"])
+    uri = gen.place(ctx.path(), case["table"], case["px"], case["mode"], at=case.get("at"))
+    fp, grp = gen.split_uri(uri)
     out = []
-    with h5py.File(path, "r") as f:
-        c = cooler.Cooler(f["/"])
+    with h5py.File(fp, "r") as f:
+        c = cooler.Cooler(f[grp]) if case.get("open", "handle") == "handle" else cooler.Cooler(uri)
         binsize = _none0(c.binsize)
         for q in case["qs"]:
             r1, r2 = _region(q["r"]), _region(q["r2"])
